@@ -4,7 +4,7 @@ from __future__ import annotations
 import ast
 
 from sa.cfg import CFG
-from sa.model import AnalysisError, FuncInfo, Model, walk_no_nested
+from sa.model import canon_text, AnalysisError, FuncInfo, Model, walk_no_nested
 from sa.report import Report
 from sa.uds_rules import parse_pdu_request_consistency
 
@@ -227,7 +227,7 @@ def run(m: Model, r: Report, tier: str) -> None:
     wt = WHILE.test
     ok_w = isinstance(wt, ast.BoolOp) and isinstance(wt.op, ast.And) and len(wt.values) == 2 and \
         ast.unparse(wt.values[0]) == f"isinstance({RESP}, service.NegativeResponse)" and isinstance(wt.values[1], ast.Compare) and \
-        isinstance(wt.values[1].ops[0], ast.Eq) and ast.unparse(wt.values[1]).replace(" ", "") == f"{RESP}.response_code==UDSErrorCodes.requestCorrectlyReceivedResponsePending"
+        isinstance(wt.values[1].ops[0], ast.Eq) and ast.unparse(wt.values[1]) == canon_text(f"{RESP}.response_code == UDSErrorCodes.requestCorrectlyReceivedResponsePending")
     r.check(ok_w, "R2", f"{fn.qualname}#pending-condition",
             f"the pending loop runs while `{ast.unparse(wt)}`; it must run exactly while the reply is a negative response with code responsePending", loc=fn.loc)
     r.check(len(WHILE.orelse) == 1 and isinstance(WHILE.orelse[0], ast.Return) and ast.unparse(WHILE.orelse[0].value) == RESP, "R5", f"{fn.qualname}#final-reply-returned",
